@@ -392,7 +392,7 @@ DROPPED = [
     "extraction drops: docstrings, type annotations, decorators other than property/setter/staticmethod/classmethod/abstractmethod/dataclass",
     "Python semantics assumed: bool subset of int; // and % floor semantics; dict/comprehension order = insertion order; MRO = C3 from the ASTs; no metaclasses/__getattr__/descriptors other than property; latin-1 is the identity on code points < 256; integers are mathematical (z3 Int) = exact Python ints",
     "two distinct symbolic object parameters never alias unless the harness builds them so",
-    "package __init__ files of parent packages are not executed on import of a submodule (geckolib/__init__.py only re-exports)",
+    "imports follow CPython order: parent packages are executed first (the whole of geckolib is loaded through pyvc)",
 ]
 
 if __name__ == "__main__":
